@@ -24,7 +24,9 @@ package txnsnapshot
 // scan's bound (forward) / from the region start clipped to the scan's lower bound up to the cursor (reverse), at the
 // snapshot's timestamp, for a whole batch. Afterwards the cursor stands right behind what was read: at the region border
 // when the region had less than a batch (end of scan when that border is the scan's bound or the end of the key space),
-// otherwise right after (forward) / at (reverse: the upper bound is exclusive) the last key received.
+// otherwise right after (forward) / at (reverse: the upper bound is exclusive) the last key received. Only the pairs of
+// a response without a response-level key error are taken as a batch (with such an error the pairs are incomplete: the
+// lock is resolved and the same request is sent again).
 //@ func (*Scanner) getData
 //@   prop C05
 //@   bytes: key
@@ -33,6 +35,7 @@ package txnsnapshot
 //@       ite(s.reverse,
 //@           sreq.StartKey == s.nextEndKey && sreq.EndKey == maxKey(loc.StartKey, s.nextStartKey) && inRangeByEnd(loc.StartKey, loc.EndKey, s.nextEndKey),
 //@           sreq.StartKey == s.nextStartKey && sreq.EndKey == minEnd(loc.EndKey, s.endKey) && inRange(loc.StartKey, loc.EndKey, s.nextStartKey))
+//@   at def(kvPairs) assert complete: cmdScanResp.GetError() == nil
 //@   loop 1 invariant cursor: s.nextStartKey == old(s.nextStartKey) && s.nextEndKey == old(s.nextEndKey) && s.endKey == old(s.endKey) && s.reverse == old(s.reverse) && s.batchSize == old(s.batchSize) && s.eof == old(s.eof) && s.snapshot == old(s.snapshot)
 //@   ensures fwd: result == nil && !s.reverse ==> s.idx == 0 && s.nextEndKey == old(s.nextEndKey) && ite(len(s.cache) < s.batchSize,
 //@       s.nextStartKey == loc.EndKey && (s.eof <==> (old(s.eof) || loc.EndKey == "" || (s.endKey != "" && s.nextStartKey >= s.endKey))),
@@ -94,3 +97,24 @@ package txnsnapshot
 //@   at call(SendReqCtx) assert sent: arg_req == req && arg_regionID == batch.region
 //@   at call(batchGetKeysByRegions) assert resplit: arg_keys == pending && arg_readTier == readTier
 //@   loop 1 step narrow: pending == prev(pending) || (pending == lockInfo.lockedKeys && lockInfo.keyErr == nil && len(lockInfo.lockedKeys) > 0)
+
+// BatchGetWithTier never writes into the caller's key list (the keys missing from the cache are collected in a list of
+// its own).
+//@ func (*KVSnapshot) BatchGetWithTier
+//@   prop C05
+//@   bytes: key
+//@   opaque-callee getSnapCacheWithoutLock checkCommitTSRequired recordBackoffInfo NewBackofferWithVars WithRPCInterceptor SetCtx GetGlobalConfig
+//@   loop 1 invariant kept: forall i int :: 0 <= i && i < len(keys) ==> keys[i] == old(keys[i])
+//@   ensures kept: forall i int :: 0 <= i && i < len(keys) ==> keys[i] == old(keys[i])
+
+// (assumed, not verified: the fan-out over regions and the cache update only read the key list they are given)
+//@ func (*KVSnapshot) batchGetKeysByRegions
+//@   trusted
+//@   bytes: key
+//@   modifies nothing
+//@   ensures forall i int :: 0 <= i && i < len(keys) ==> keys[i] == old(keys[i])
+
+//@ func (*KVSnapshot) UpdateSnapshotCache
+//@   trusted
+//@   bytes: key
+//@   modifies KVSnapshot.mu
